@@ -20,6 +20,9 @@ CHECKS = {
  "C07": ("exploration", "Histories of 2-32 concurrent connections are recorded at the client boundary (call/return times from one monotonic clock, replies) together with the append-only file; a linear-time log-order checker matches every log entry to the operation that caused it (unique tokens, per-client command-word casing), replays the log through the sequential model (each write's reply must equal the model's at its log position), checks that log order never contradicts real time and that every read / no-op write equals the model's reply at some log position inside its real-time window with cross-client monotonicity; short histories are also checked with porcupine, independently of the log; the same workload (plus live fences and background expiry) runs on a -race build, reports touching lock-guarded state and runtime fatals are violations.",
          "kmodel as the sequential specification; harness clock; race reports are classified by stack frames (statistics/logging races are recorded, not judged).",
          "runtime monitoring: offline log-order/linearizability checkers over recorded histories (porcupine + own checker) and the Go race detector", "4/C07"),
+ "C19": ("exploration", "Model-tracked histories biased to kind-changing overwrites, TTL changes, renames, drops and PDEL run against a verif build; at intervals an in-process AUDIT command cross-checks the id tree against the spatial, value and expiry indexes, the four counters, the hook registries and the group maps, and a client-side monitor recomputes STATS, SERVER totals, SCAN COUNT, SEARCH COUNT, KEYS and BOUNDS from the SCAN dump and checks that every retrievable object is found through SEARCH / WITHIN / INTERSECTS / NEARBY and nothing else is; in_memory_size and num_points are compared with a fresh server holding one SET per object.",
+         "A BOUNDS-born rectangle counts 2 points; BOUNDS deviations below one float32 step are the listed finding bounds-float32-tie; the AUDIT code is part of the trusted base.",
+         "runtime monitoring: in-process invariant audit at quiescent points + client-side recomputation oracle", "4/C19"),
 }
 def main():
     old = json.load(open('/verif/MANIFEST.json'))
